@@ -10,6 +10,25 @@ Property theorems only. `decodeImpl`, `step`, `indentString`, `events`, `receive
 string pieces are opaque inputs. The tables (`whitespace`, `htmlPreserveWs`, `basePreserveWs`, `builtinIndents`,
 `defaultIndentInt`) are generated from the live objects on every run.
 
+Clause of the property → theorems (all for every tree, unit, level, encoding; none by finite enumeration):
+* "re-parses to the same tree as the plain output once whitespace inside text is disregarded" → `nonws_equal(_contents)`,
+  `recv_nonws_equal` (same non-whitespace characters, same order), `pretty_same_events` (same pieces, tags intact),
+  `pretty_same_tokens` + `specials_ok_table` (same token sequence modulo whitespace in character data; tokenizer not
+  modelled — see section 10; the tree-level comparison is the harness' re-parse oracle);
+* "everything inside whitespace-preserving elements (pre, textarea) is reproduced character for character" →
+  `preserve_verbatim`, `preserve_verbatim_line`, `preserve_verbatim_contents`, `html_preserve_tags`, `xml_preserves_nothing`,
+  `should_pretty_print_iff`;
+* "outside those elements every tag and every non-blank string sits on its own line, indented by unit × depth" →
+  `line_structure(_contents)`, `line_structure_general` (no visibility hypothesis), `recv_line_structure`, `blank_iff`,
+  `special_strings_have_lines`, `tag_piece_shape`, `void_receiver`;
+* "the output ends with a newline" → `ends_with_newline(_contents)`, `recv_line_structure` (declaration line included);
+* quantifier "every element as the starting point" → `decode_refines`, `recv_decode_refines` (visible / hidden receiver,
+  `decode_contents`, `BeautifulSoup` object, empty-element tag), `event_stream_refines`; "every built-in formatter and indent
+  setting" → `builtin_units` (whole table), `indent_none/int/str/other`, `indent_whitespace`; "HTML- and XML-flavoured trees" →
+  `html_preserve_tags`, `xml_preserves_nothing`, `xml_declaration(_python_specific)`; str and bytes flavour of `prettify` →
+  `prettify_flavours`, `prettify_bytes_of_str`; "trees from edit histories" → the statements are about arbitrary trees
+  (identities distinct), whatever history produced them.
+
 Hypotheses that appear below and why they are harmless:
 * `distinct t` — no element has the identity of one of its own descendants (`decode` compares with `is`); true of every
   real tree (C01's well-formedness).
